@@ -157,7 +157,7 @@ type gate struct {
 // ParseClientMsg and ValidClientMsg and has a chan<- ClientMsg parameter.
 func resolveGate(c *core.Ctx) *gate {
 	P := c.P
-	parse := P.Root.Func("ParseClientMsg")
+	parse := P.Func(P.Root, "ParseClientMsg")
 	for _, fn := range P.ModFuncs {
 		if len(callsTo(fn, parse)) == 0 || fn.Pkg != P.Root {
 			continue
